@@ -71,6 +71,26 @@ Theorem C12_merge_rel_refuted : C12_merge_rel_refuted_statement.
 Proof. vm_compute. repeat split. Qed.
 Print Assumptions C12_merge_rel_refuted.
 
+(* the complement: a relationship MERGE whose rows all carry the same pattern (any direction,
+   existing relationship in any orientation or none) creates at most one relationship, and the
+   repeated statement creates nothing and leaves nodes, relationships and the id counter untouched.
+   (Rows with different maps that merely agree on shared keys are not covered by a theorem.) *)
+Definition C12_merge_rel_idempotent_statement : Prop :=
+  forall g wk dir ps n,
+    NoDup (keys_of ps) -> (forall k v, In (k, v) ps -> pv_eq v v = true) ->
+    match exec g (UMergeRel (same_rows wk dir ps n)) with
+    | Done g1 c1 =>
+        (c1 <= 1) /\
+        match exec g1 (UMergeRel (same_rows wk dir ps n)) with
+        | Done g2 c2 => c2 = 0 /\ gn g2 = gn g1 /\ gr g2 = gr g1 /\ gnext g2 = gnext g1
+        | Failed => False
+        end
+    | Failed => False
+    end.
+Theorem C12_merge_rel_idempotent : C12_merge_rel_idempotent_statement.
+Proof. exact merge_rel_same_rows_idempotent. Qed.
+Print Assumptions C12_merge_rel_idempotent.
+
 (* direction: an undirected MERGE (b)-[:R]-(a) and a right-to-left MERGE (b)<-[:R]-(a) find the
    relationship stored as a -> b and create nothing; (b)-[:R]->(a) does not match it and creates b -> a *)
 Definition C12_merge_rel_direction_statement : Prop :=
